@@ -1,7 +1,7 @@
 """C10 — async pipe: lossless ordered contiguous appends; cleanup flushes and returns (tbox::util::AsyncPipe)."""
 import vlib
 ID = 'C10'
-LEAN_MODULES = ['TboxModel.C10.Props']
+LEAN_MODULES = ['TboxModel.C10.Props', 'TboxModel.C10.Replay']
 EXE = 'c10'
 MODE = 'trace'
 THEOREMS = ['Tbox.C10.C10_stream', 'Tbox.C10.C10_per_thread_order', 'Tbox.C10.C10_callbacks_serial',
@@ -16,7 +16,10 @@ THEOREMS = ['Tbox.C10.C10_stream', 'Tbox.C10.C10_per_thread_order', 'Tbox.C10.C1
             'Tbox.C10.C10_alloc_failure_count_leak_counterexample', 'Tbox.C10.xexec_xinv', 'Tbox.C10.dead_forever',
             'Tbox.C10.C10_api_init_validates', 'Tbox.C10.C10_api_init_twice_refused', 'Tbox.C10.C10_api_init_twice_counterexample',
             'Tbox.C10.C10_api_fresh_lifecycle', 'Tbox.C10.C10_api_cleanup_idempotent', 'Tbox.C10.C10_api_init_threw_strands_buffers_counterexample',
-            'Tbox.C10.C10_quiescent_after_cleanup', 'Tbox.C10.C10_sink_cannot_join_itself', 'Tbox.C10.C10_lockless_without_lock_counterexample']
+            'Tbox.C10.C10_quiescent_after_cleanup', 'Tbox.C10.C10_sink_cannot_join_itself', 'Tbox.C10.C10_lockless_without_lock_counterexample',
+            # round 6: per-thread order under allocation failure, step-level replay of recorded interleavings, exact-fill boundaries
+            'Tbox.C10.C10_alloc_failure_per_thread_order', 'Tbox.C10.xexec_xprog', 'Tbox.C10.C10_alloc_failure_order_exact', 'Tbox.C10.xexec_xord', 'Tbox.C10.C10_replay_certified', 'Tbox.C10.C10_replay_sound',
+            'Tbox.C10.C10_exact_fill_boundary']
 SOURCES = ['modules/util/async_pipe.cpp']
 # tsan: the property includes data-race freedom; ThreadSanitizer (halt_on_error) turns a race in a case into CRASH tsan:data race.
 # (asan also builds and runs this harness — set C10_FLAVOUR=asan — but then only the stream/termination part is observed.)
@@ -39,7 +42,16 @@ TRUSTED = ['model lean/TboxModel/C10/Model.lean hand-written from modules/util/a
            'allocation / thread creation fails; the allocator\'s and kernel\'s answers are oracle inputs of the model (XStep.allocFail, InitFault)',
            '`compact` lifecycles (buffer / append sizes around 2^24, 2^31): the harness itself compares every delivered block with the expected '
            'records on the fly and reports match/total/block lengths; the driver checks those numbers (blockRuleN is driver glue, unproved)',
-           'acquisition order: a global sequence number stamped at the first pthread_mutex_lock obtained inside each append (M-class)']
+           'acquisition order: a global sequence number stamped at the first pthread_mutex_lock obtained inside each append (M-class)',
+           'step-level replay (round 6): the harness interposes pthread_mutex_lock/trylock/unlock, pthread_cond_wait/clockwait/timedwait/'
+           'broadcast/signal and records every such event of the pipe\'s threads with one relaxed counter, stamped inside the critical '
+           'sections (after acquire / before release / before and after a wait); mutex roles are learnt from the log (first mutex of an '
+           'append = producer mutex, first mutex of the back end = full_buffers_mutex_, ...); Replay.lean maps events to model steps, each '
+           'checked with xvalid (C10_replay_certified); the mapping itself (which event is which step, the windows of a failed try_lock) is '
+           'glue: a wrong mapping can only make the replay fail (M-break), never accept a run that is not a model execution',
+           'signals: SIGUSR1 with a handler installed without SA_RESTART is sent with pthread_kill to the back-end thread and to producer '
+           'threads; glibc\'s condition variables absorb EINTR, the model allows a wake-up with a false predicate anyway (bWake false / a '
+           'second wait)']
 ASSUMPTIONS = ['configuration accepted by initialize(): buff_size >= 1, 1 <= buff_min_num <= buff_max_num, interval >= 1',
                'no append is in flight when cleanup() begins and none starts afterwards (C10_cleanup_flushes / _terminates hypothesis `late = false`); '
                'an append concurrent with cleanup may lose its data or block for ever — outside the statement, noted in the report',
@@ -59,6 +71,7 @@ RULE = ('cases = pipe lifecycles: config (buffer size 1..4096, (min,max) in {(1,
         'real producer threads appending tagged length-prefixed records (smaller than / equal to / many times a buffer, zero-size, '
         'lock+lockless groups) x PRNG-seeded delay schedule at the interposed lock/wait points x slow sink; cleanup at quiescent points; several initialize..cleanup lifecycles on one object; re-entrant sinks (`echo`: the callback appends acks to the same pipe on every n-th / every timed-flush block); `fillhold` probes (live buffer count with the sink held); '
         'round 5: initialize() on a running pipe, destructor instead of cleanup, no callback installed, allocation-failure schedules while the pool grows (`allocfail k,..`), failing thread creation / allocation in initialize (`initfail`), width families (buffer and append sizes on both sides of 2^16 byte-exact, of 2^24 — 2^31 in thorough — in compact lifecycles, intervals around 2^31/2^32 ms), acquisition order recorded at the producer mutex, documented contract-violation experiments; '
+        'round 6: every lifecycle (except compact ones) carries its event log and is replayed step by step as a model execution; state-derived sizes (an append equal to the space left in the current buffer -1/0/+1, one append = buff_size x buff_max_num -1/0/+1, cleanup with the buffer just handed over / emptied by a timed flush, the same configuration twice on one object), appends that fill a buffer paced at the flush interval, `echo same` (the sink appends exactly the block it was given, bytes taken from the pipe\'s own buffer), real signals to the back end and to blocked producers (`sig`, `sigrun`); '
         'non-trivial = at least 2 producers really interleaved, or a timed flush of a partial buffer, or real back-pressure '
         '(a producer waited for a buffer), or an append spanning several buffers; distinct = distinct op text')
 
@@ -170,6 +183,74 @@ def gen_allocfail(rng):
     return ops
 
 
+def gen_exact(rng):
+    """lesson (g), state-derived sizes: an append exactly as large as the space left in curr_buffer_ (and one byte less / more), by the
+    same and by another thread; an append of exactly buff_size x buff_max_num bytes (and +-1) against a slow sink; cleanup with the
+    current buffer exactly full (= just handed over) / partial / taken by a timed flush.  Long interval: no timed flush interferes."""
+    size = rng.choice([12, 16, 31, 64, 100])
+    mn, mx = rng.choice([(1, 1), (1, 2), (2, 3)])
+    a = rng.randrange(5, size - 6)                       # total length of the first record (5-byte header included)
+    for d in (-1, 0, 1):
+        second = size - a + d
+        if second < 5: continue
+        for other in (0, 1):
+            yield ['init %d %d %d 1000' % (size, mn, mx), 'perturb %d %d 0' % (rng.randrange(1, 10 ** 9), rng.choice([0, 100])),
+                   'prod 0 0 %d' % (a - 5), 'run', 'prod %d 0 %d' % (other, second - 5), 'run', rng.choice(['cleanup', 'cleanup', 'destroy'])]
+    # one append = the whole pool, +-1 (slow sink: real back-pressure inside the append)
+    for d in (-1, 0, 1):
+        yield ['init %d %d %d 1000' % (size, mn, mx), 'perturb %d 0 %d' % (rng.randrange(1, 10 ** 9), rng.choice([0, 1500])),
+               'prod 2 0 %d' % (size * mx + d - 5), 'run', 'prod 3 0 %d' % (size - 5), 'run', 'cleanup']
+    # cleanup right after an exact fill, after a timed flush emptied the current buffer, and with nothing appended since
+    yield ['init %d 1 2 1000' % size, 'prod 0 0 %d' % (size - 5), 'run', 'cleanup',
+           'init %d 1 2 2' % size, 'prod 0 0 3', 'run', 'sleep 12', 'cleanup',
+           'init %d 1 2 2' % size, 'prod 0 0 3', 'run', 'sleep 12', 'prod 1 0 %d' % (size - 5), 'run', 'cleanup',
+           # the same configuration again on the same object (a cached 'unchanged? then skip' must not exist)
+           'init %d 1 2 2' % size, 'prod 0 0 3', 'run', 'sleep 12', 'prod 1 0 %d' % (size - 5), 'run', 'destroy']
+
+
+def gen_flush_race(rng):
+    """the timed flush fires while / at the moment the buffer becomes full: interval 1 ms, appends that fill exactly one buffer (or
+    exactly half of one) paced at the interval"""
+    size = rng.choice([8, 16, 64])
+    ops = ['init %d 1 %d 1' % (size, rng.choice([2, 3])), 'perturb %d %d 0' % (rng.randrange(1, 10 ** 9), rng.choice([0, 100, 300]))]
+    half = max(0, size // 2 - 5)
+    ops.append('prod 0 %d %s' % (rng.choice([900, 1000, 1100]), ','.join([str(size - 5)] * 25)))
+    if rng.random() < 0.5 and size >= 16:
+        ops.append('prod 1 %d %s' % (rng.choice([450, 500, 550]), ','.join([str(half)] * 30)))
+    return ops + ['run', 'cleanup']
+
+
+def gen_echo_same(rng):
+    """re-entrant + state-derived: the sink appends exactly the block it was given (same size, bytes taken from the pipe's own buffer)"""
+    size = rng.choice([16, 32, 64])
+    ops = ['init %d %d 64 %d' % (size, rng.choice([1, 2]), rng.choice([1, 2, 5])),
+           'perturb %d %d 0' % (rng.randrange(1, 10 ** 9), rng.choice([0, 0, 100])),
+           'echo same %d 0' % rng.choice([1, 2, 3, 5])]
+    for ph in range(rng.choice([1, 2])):
+        for tid in rng.sample(range(7), rng.choice([1, 2])):
+            toks = [str(rng.choice([0, 3, size - 6, size - 5, size - 4, 2 * size - 5])) for _ in range(rng.choice([1, 2, 3]))]
+            ops.append('prod %d %d %s' % (tid, rng.choice([0, 300]), ','.join(toks)))
+        ops.append('run')
+        ops.append('sleep %d' % rng.choice([0, 8, 20]))
+    ops.append('cleanup')
+    return ops
+
+
+def gen_signals(rng):
+    """goal 4: REAL handled signals (SIGUSR1, no SA_RESTART) to the back-end thread in its timed wait and to producers inside
+    free_buffers_cv_.wait (slow sink, tiny pool): nothing may change — same stream, same block rule, the recorded interleaving
+    still replays (a wake-up with the predicate false is a stutter step)"""
+    size, mx = rng.choice([(4, 1), (8, 2), (16, 2), (64, 3)])
+    iv = rng.choice([1, 5, 50])
+    ops = ['init %d 1 %d %d' % (size, mx, iv), 'perturb %d %d %d' % (rng.randrange(1, 10 ** 9), rng.choice([0, 100]), rng.choice([300, 1500])),
+           'sig %d %d' % (rng.choice([1, 5, 20]), rng.choice([0, 100, 1000])), 'sleep %d' % (iv + 1), 'sig 3 0',
+           'sigrun %d %d' % (rng.choice([20, 60, 150]), rng.choice([50, 200, 500]))]
+    for tid in rng.sample(range(8), rng.choice([1, 2, 4])):
+        ops.append('prod %d 0 %s' % (tid, ','.join(str(rng.choice([0, 3, size, 3 * size])) for _ in range(rng.choice([2, 5])))))
+    ops += ['run', 'sig 10 100', 'sleep %d' % rng.choice([0, iv, 2 * iv + 1]), 'sig 2 0', rng.choice(['cleanup', 'destroy'])]
+    return ops
+
+
 def gen_width(rng, tier):
     """width boundaries (lesson a): buffer sizes and append sizes on both sides of 2^16 with the full byte-level acceptor, of 2^24 in `compact` lifecycles (2^31 and 2^32:
     gen_huge, ASan pass of the thorough tier) (one append at a time; the harness compares the stream on the fly), and
@@ -211,7 +292,7 @@ def gen(rng, tier):
            'reinit 8 1 2 5', 'unsetcb', 'setcb', 'compact', 'big 0 5', 'allocfail 1', 'exp lockless 0 1 1', 'exp frob 4 1 1', 'exp cbthrow 4 1',
            'initfail thread 8 1 2', 'initfail alloc 3 8 2 3 5', 'initfail alloc 0 8 2 3 5', 'initfail disk 8 1 2 5', 'initfail thread 0 1 1 1',
            'init 8 1 2 5', 'allocfail 0', 'allocfail 1,,2', 'allocfail x', 'big 0 5', 'compact', 'big 8 1', 'prod 0 0 1', 'run', 'compact', 'unsetcb',
-           'initfail thread 8 1 2 5', 'cleanup', 'init 8 1 2 99999999999', 'init 99999999999 1 2 1', 'init 8 1 2 4294967298', 'destroy', 'destroy']
+           'initfail thread 8 1 2 5', 'cleanup', 'sig 1 1', 'sigrun 1 1', 'init 8 1 2 5', 'sig 201 0', 'sig 1', 'sigrun 1 5001', 'echo same 0 0', 'cleanup', 'init 8 1 2 99999999999', 'init 99999999999 1 2 1', 'init 8 1 2 4294967298', 'destroy', 'destroy']
     # directed: initialize() on a RUNNING pipe must be refused and must leave the running lifecycle alone (as found: std::terminate)
     yield ['init 8 1 2 5', 'prod 0 0 3', 'run', 'reinit 8 1 2 5', 'reinit 0 0 0 0', 'reinit 64 2 2 1', 'prod 1 0 20', 'run', 'cleanup',
            'init 16 2 3 1', 'reinit 16 2 3 1', 'prod 1 0 2', 'run', 'destroy']
@@ -231,6 +312,18 @@ def gen(rng, tier):
         yield gen_allocfail(rng)
     for c in gen_width(rng, tier):
         yield c
+    # round 6: state-derived sizes (exact fill +-1, whole pool +-1, cleanup at exact-full / emptied buffers), the timed flush racing
+    # with the fill, the sink appending exactly the block it was given, real signals
+    for _ in range(1 if tier == 'quick' else 10):
+        for c in gen_exact(rng):
+            yield c
+    for _ in range(4 if tier == 'quick' else 40):
+        yield gen_flush_race(rng)
+    yield ['init 16 1 8 5', 'echo same 1 0', 'prod 0 0 11', 'run', 'sleep 20', 'cleanup']
+    for _ in range(5 if tier == 'quick' else 50):
+        yield gen_echo_same(rng)
+    for _ in range(5 if tier == 'quick' else 50):
+        yield gen_signals(rng)
     # documented only (M-class): contract violations — lockless appends without the lock, a throwing sink, a sink that cleans up its own pipe
     yield ['exp lockless 8 2 20', 'exp cbthrow 8 2 1', 'exp cbcleanup 8 2 1']
     # directed: one byte buffers, single buffer (min=max=1): every byte is a block, permanent back-pressure
@@ -287,7 +380,9 @@ LEVEL_TEXT = ('Lean 4 theorems over an interleaving model of AsyncPipe (producer
               'contiguous appends, acquisition order, per-thread order), serial callbacks, buffer bounds, sound back-pressure with a variant '
               'function (no deadlock), cleanup flushes everything and the back end exits (variant function); the acceptor\'s block rule is exactly the set '
               'of observables of complete model runs (soundness C10_observable_accepted + completeness C10_complete); lockset discipline of every shared '
-              'field. Tied to async_pipe.cpp on every run by a trace acceptor over real multi-threaded runs (TSan build, seeded delay injection).')
+              'field. Tied to async_pipe.cpp on every run by a trace acceptor over real multi-threaded runs (TSan build, seeded delay injection) '
+              'and, since round 6, by a step-level replay: the recorded mutex / condition-variable events of every run are mapped to model steps, each '
+              'checked enabled, the model deciding every branch (C10_replay_certified, C10_replay_sound).')
 LEVEL_NOTE = ('partial for "free of data races": C++ data-race freedom cannot be exhibited by the Lean model — the model proves the lock discipline '
               '(any two steps of different threads touching a shared field hold a common mutex; footprints honest) and ThreadSanitizer under '
               'schedule perturbation is the supporting instrument, not a proof. "cleanup always terminates" is proved as: after the stop signal '
